@@ -28,6 +28,7 @@ type l2case struct {
 	SigAt  int // ... before its SigAt-th send (== NSend: after its last send)
 	Busy   int
 	Probe  bool // consumers also call isClosed()/len() (results unused)
+	Trials int  // > 1: a burst, the same workload repeated in one process on fresh channels
 	Procs  int
 	YSeed  int64
 	YProb  float64
@@ -41,8 +42,12 @@ func (c l2case) String() string {
 	case 2:
 		cl = fmt.Sprintf("closer closes after %d loop iterations", c.Busy)
 	}
-	return fmt.Sprintf("case %d: %d producers x %v sends, %d consumers, capacity %d, %s, probe=%v, GOMAXPROCS=%d, VERIF_YIELD=%d:%.2f",
-		c.N, c.P, c.NSend, c.C, c.Cap, cl, c.Probe, c.Procs, c.YSeed, c.YProb)
+	burst := ""
+	if c.Trials > 1 {
+		burst = fmt.Sprintf("burst of %d trials, ", c.Trials)
+	}
+	return fmt.Sprintf("case %d: %s%d producers x %v sends, %d consumers, capacity %d, %s, probe=%v, GOMAXPROCS=%d, VERIF_YIELD=%d:%.2f",
+		c.N, burst, c.P, c.NSend, c.C, c.Cap, cl, c.Probe, c.Procs, c.YSeed, c.YProb)
 }
 
 func genL2(r *rand.Rand, n int, thorough bool) l2case {
@@ -71,12 +76,40 @@ func genL2(r *rand.Rand, n int, thorough bool) l2case {
 	return c
 }
 
+// genBurst: short workloads in which the close overlaps the sends (an immediate or
+// signalled closer, mostly buffered channels), repeated many times in one process.
+func genBurst(r *rand.Rand, n, trials int) l2case {
+	c := l2case{N: n, P: 1 + r.Intn(3), C: 1 + r.Intn(2), Cap: r.Intn(5), Trials: trials}
+	if r.Intn(4) != 0 && c.Cap == 0 {
+		c.Cap = 1 + r.Intn(2)
+	}
+	for i := 0; i < c.P; i++ {
+		c.NSend = append(c.NSend, 1+r.Intn(3))
+	}
+	switch k := r.Intn(10); {
+	case k == 0:
+		c.Closer = 0
+	case k < 6:
+		c.Closer = 2
+		c.Busy = []int{0, 0, 10, 100}[r.Intn(4)]
+	default:
+		c.Closer = 1
+		c.SigP = r.Intn(c.P)
+		c.SigAt = r.Intn(c.NSend[c.SigP] + 1)
+	}
+	c.Probe = r.Intn(6) == 0
+	c.YSeed = int64(r.Intn(1 << 30))
+	c.YProb = []float64{0.5, 0.7, 0.9}[r.Intn(3)]
+	return c
+}
+
 func (c l2case) script(bin string) string {
 	var sb strings.Builder
 	sb.WriteString("<?php\n// C09 layer 2. " + c.String() + "\n")
 	fmt.Fprintf(&sb, "// run: GOMAXPROCS=%d VERIF_YIELD=%d:%.2f GORACE=\"halt_on_error=0\" %s <this file>   (race-detector build of the CLI, -tags verif)\n", c.Procs, c.YSeed, c.YProb, bin)
 	sb.WriteString(`// producer $id sends $id*1000000+i and reports "P<id> <1|0 per send>"; a consumer receives until null and
-// reports "C<id> <values>"; the closer reports "K"; the main coroutine closes (again) and drains: "Z <values>".
+// reports "C<id> <values>"; the closer reports "K"; the main coroutine closes (again), waits for every consumer's
+// report (each consumer has seen null by then) and only then drains: "Z <values>" (must be empty).
 function prod($ch, $res, $sig, $id, $n, $sigAt) { spawn(function() use ($ch, $res, $sig, $id, $n, $sigAt) {
   $r = "P" . $id; $i = 0;
   while ($i < $n) {
@@ -104,7 +137,7 @@ function closer($ch, $res, $sig, $busy) { spawn(function() use ($ch, $res, $sig,
   $res->send("K");
 }); }
 `)
-	fmt.Fprintf(&sb, "$ch = new Channel(%d);\n$res = new Channel(%d);\n$sig = new Channel(4);\n", c.Cap, c.P+c.C+4)
+	fmt.Fprintf(&sb, "function trial($t) {\necho \"T \", $t, \"\\n\";\n$ch = new Channel(%d);\n$res = new Channel(%d);\n$sig = new Channel(4);\n", c.Cap, c.P+c.C+4)
 	for i := 0; i < c.P; i++ {
 		sigAt := -1
 		if c.Closer == 1 && c.SigP == i {
@@ -131,12 +164,15 @@ while ($got < %d) {
   if (!str_starts_with($l, "C")) { $got = $got + 1; }
 }
 $ch->close();
+while ($all < %d) { $l = $res->receive(); echo $l, "\n"; $all = $all + 1; }
 $z = "Z";
 while (true) { $v = $ch->receive(); if ($v === null) { break; } $z = $z . " " . $v; }
-while ($all < %d) { $l = $res->receive(); echo $l, "\n"; $all = $all + 1; }
 echo $z, "\n";
 echo "DONE\n";
-`, need, total)
+}
+$t = 0;
+while ($t < %d) { trial($t); $t = $t + 1; }
+`, need, total, max(c.Trials, 1))
 	return sb.String()
 }
 
@@ -160,6 +196,8 @@ func evalL2(c l2case, stdout string) (viols []viol, nontrivial bool, moved int, 
 			continue
 		}
 		switch {
+		case f[0] == "T":
+			// trial header
 		case f[0] == "DONE":
 			done = true
 		case f[0] == "K":
@@ -239,6 +277,10 @@ func evalL2(c l2case, stdout string) (viols []viol, nontrivial bool, moved int, 
 				nontrivial = true
 			}
 		}
+	}
+	if z := recv["Z"]; len(z) > 0 {
+		// every consumer had reported (after a null) before the main coroutine drained
+		add("null-then-value", "every consumer had already received null (closed and empty), yet the main coroutine's later receives still deliver %v", z)
 	}
 	for v, k := range count {
 		if k > 1 {
@@ -353,6 +395,7 @@ type l2Totals struct {
 	raceAttr    map[string]int
 	raceOther   map[string]int
 	valuesMoved int
+	trials      int
 	samples     []any
 	byProcs     map[int]int
 }
@@ -360,6 +403,7 @@ type l2Totals struct {
 func (t *l2Totals) extras(e *lib.Env) {
 	e.Extra("layer2_script_runs", t.runs)
 	e.Extra("layer2_runs_completed", t.completed)
+	e.Extra("layer2_trials_evaluated", t.trials)
 	e.Extra("layer2_runs_ending_in_a_go_crash", t.crashed)
 	e.Extra("layer2_runs_by_gomaxprocs", t.byProcs)
 	e.Extra("layer2_values_received", t.valuesMoved)
@@ -399,6 +443,16 @@ func runLayer2(e *lib.Env) *l2Totals {
 	var cases []l2case
 	for i := 0; i < nCfg; i++ {
 		base := genL2(r, i, !e.Quick())
+		for _, procs := range []int{1, 2, 4, 16} {
+			c := base
+			c.Procs = procs
+			c.YSeed = base.YSeed + int64(procs)
+			cases = append(cases, c)
+		}
+	}
+	rb := e.Rand("layer2-burst")
+	for i := 0; i < e.Pick(16, 300); i++ {
+		base := genBurst(rb, nCfg+i, e.Pick(100, 200))
 		for _, procs := range []int{1, 2, 4, 16} {
 			c := base
 			c.Procs = procs
@@ -465,7 +519,34 @@ func runLayer2(e *lib.Env) *l2Totals {
 			e.Violation(panicKey(siteOf(res.Stderr), msg)+"/script", "the interpreter process died ("+msg+") while coroutines send/receive/close one Channel: "+c.String()+" | "+tail(what, 200), "php", []byte(src))
 			return
 		}
-		viols, nontrivial, moved, malformed := evalL2(c, res.Stdout)
+		var viols []viol
+		nontrivial, moved, malformed, trials := false, 0, "", 0
+		witness := res.Stdout
+		for _, chunk := range splitTrials(res.Stdout) {
+			v, nt, mv, mal := evalL2(c, chunk)
+			trials++
+			if mal != "" && malformed == "" {
+				malformed = fmt.Sprintf("trial %d: %s", trials-1, mal)
+			}
+			for _, one := range v {
+				dup := false
+				for _, have := range viols {
+					dup = dup || have.Key == one.Key
+				}
+				if !dup {
+					viols = append(viols, one)
+					witness = chunk
+				}
+			}
+			nontrivial = nontrivial || nt
+			moved += mv
+		}
+		if trials != max(c.Trials, 1) && malformed == "" {
+			malformed = fmt.Sprintf("%d of %d trials reported", trials, max(c.Trials, 1))
+		}
+		t.mu.Lock()
+		t.trials += trials
+		t.mu.Unlock()
 		if malformed != "" || res.Exit != 0 {
 			first := strings.SplitN(strings.TrimSpace(res.Stderr), "\n", 2)[0]
 			if malformed == "" {
@@ -481,12 +562,29 @@ func runLayer2(e *lib.Env) *l2Totals {
 		}
 		t.valuesMoved += moved
 		if len(t.samples) < 3 && nontrivial && len(viols) == 0 {
-			t.samples = append(t.samples, c.String()+" => "+strings.ReplaceAll(strings.TrimSpace(res.Stdout), "\n", " | "))
+			t.samples = append(t.samples, c.String()+" => "+tail(strings.ReplaceAll(strings.TrimSpace(res.Stdout), "\n", " | "), 400))
 		}
 		t.mu.Unlock()
 		for _, v := range viols {
-			e.Violation(v.Key, v.What+" — "+c.String()+" — output: "+strings.ReplaceAll(strings.TrimSpace(res.Stdout), "\n", " | "), "php", []byte(src))
+			e.Violation(v.Key, v.What+" — "+c.String()+" — output: "+strings.ReplaceAll(strings.TrimSpace(witness), "\n", " | "), "php", []byte(src))
 		}
 	})
 	return t
+}
+
+// splitTrials cuts the output of a run into one chunk per "T <n>" header.
+func splitTrials(out string) []string {
+	var chunks []string
+	cur := ""
+	for _, line := range strings.SplitAfter(out, "\n") {
+		if strings.HasPrefix(line, "T ") && cur != "" {
+			chunks = append(chunks, cur)
+			cur = ""
+		}
+		cur += line
+	}
+	if strings.TrimSpace(cur) != "" {
+		chunks = append(chunks, cur)
+	}
+	return chunks
 }
